@@ -47,7 +47,7 @@ func Gen(t *rapid.T, g GenCfg) []Op {
 			kinds = append(kinds, "takeover")
 		}
 		if g.Negative {
-			kinds = append(kinds, "neg", "neg")
+			kinds = append(kinds, "neg", "neg", "dup")
 		}
 	}
 	sessRef := func() int {
@@ -155,6 +155,8 @@ func Gen(t *rapid.T, g GenCfg) []Op {
 				continue
 			}
 			ops = append(ops, Op{Op: stack.Op{Kind: "mod", Peer: rapid.IntRange(0, 2).Draw(t, "peer"), Sess: sessRef(), Takeover: true, Node: rapid.IntRange(0, 2).Draw(t, "newnode")}})
+		case "dup":
+			ops = append(ops, Op{Op: stack.Op{Kind: "dup", Peer: rapid.SampledFrom([]int{0, 1, 2, 100}).Draw(t, "peer"), Sess: -1}})
 		case "neg":
 			switch rapid.IntRange(0, 5).Draw(t, "negkind") {
 			case 0:
@@ -220,6 +222,8 @@ func Brief(c Case) []string {
 			}
 		case "rsp":
 			x += fmt.Sprintf("(sock%d seid0=%v)", op.Peer, op.SEID0)
+		case "dup":
+			x += fmt.Sprintf("(sock%d)", op.Peer)
 		}
 		out = append(out, x)
 	}
